@@ -42,6 +42,12 @@ def parseDest (dest : Bytes) : Option WfDest :=
 /-- the expected target text: destination with the first `$1` replaced by the wildcard text -/
 def expectedTarget (dest wildcardText : Bytes) : Bytes := replaceFirst dest b!"$1" wildcardText
 
+/-- the target text the property asks for, for a rule that matched `uri`: a trailing-wildcard pattern
+    hands everything after its prefix (the wildcard text, query included) to `$1`; an exact pattern
+    has no wildcard text. Written from the property text, independent of `Model.attemptMatch`. -/
+def targetFor (pattern dest uri : Bytes) : Bytes :=
+  if pattern.getLast? = some 42 then expectedTarget dest (uri.drop (pattern.length - 1)) else dest
+
 /-- observation of one outgoing request (as the performer sees it) -/
 structure Obs where
   scheme : Bytes
